@@ -15,6 +15,8 @@ import sys
 import tempfile
 
 VERIF = os.path.dirname(os.path.dirname(os.path.abspath(__file__)))
+# repairs whose effect on the property's workload is also produced by a later repair: reversed together with it
+ALSO_REVERSE = {"6b415dc": ["445b41f"]}   # aliased path entries: since 445b41f they are merged when the config is loaded
 
 
 def main():
@@ -31,9 +33,14 @@ def main():
         tmp = tempfile.mkdtemp(prefix="bvfix-")
         try:
             shutil.copytree("/repo/src", os.path.join(tmp, "src"))
-            diff = subprocess.run(["git", "-C", "/repo", "show", "--format=", commit, "--", "src"], capture_output=True, text=True).stdout
-            r = subprocess.run(["patch", "-R", "-p1", "-s", "-f", "-d", tmp], input=diff, capture_output=True, text=True)
+            for c in [commit] + ALSO_REVERSE.get(commit, []):
+                diff = subprocess.run(["git", "-C", "/repo", "show", "--format=", c, "--", "src"], capture_output=True, text=True).stdout
+                r = subprocess.run(["patch", "-R", "-p1", "-s", "-f", "-d", tmp], input=diff, capture_output=True, text=True)
+                if r.returncode:
+                    break
             row = {"property": prop, "commit": commit, "classifier": e.get("classifier"), "what": e.get("what")}
+            if commit in ALSO_REVERSE:
+                row["reversed_together_with"] = ALSO_REVERSE[commit]
             if r.returncode:
                 row["result"] = "reversal-does-not-apply"
                 row["detail"] = (r.stdout + r.stderr).strip()[:300]
